@@ -322,3 +322,115 @@ Proof.
   { apply sumZ_map_ext. intros kv _. unfold w3. by rewrite keepb_unlock_spent. }
   done.
 Qed.
+
+(** * C12 at reachable states (history level)
+
+    The lemmas above speak about one operation in ANY store state.  The ones
+    below speak about a store state [m] that refines ledger facts [sm] (as
+    every state reached by a chain-consistent history does,
+    [RefineAll.refinement_prefix]): the premise is what the LEDGER says about
+    the lease, the conclusion what the store does. *)
+
+From Verif Require Tx.LeaseLemmas.
+
+Lemma mstate_eta (m : mstate) : {| st := st m; clock := clock m |} = m.
+Proof. by destruct m. Qed.
+
+Lemma ledger_lease_is_locked U m sm op l :
+  Inv U (st m) (fs sm) → clock m = sclock sm →
+  f_leases (fs sm) !! op = Some l → sclock sm < l_expiry l →
+  is_locked (st m) op (clock m) = Some l.
+Proof.
+  intros HI Hclk Hl Hlt. apply (proj2 (LeaseLemmas.is_locked_Some (st m) op (clock m) l)).
+  rewrite (inv_locked U _ _ HI), Hclk. done.
+Qed.
+
+(** An output the ledger holds leased by [l_id l] cannot be leased under
+    another identifier before the expiry instant: the call fails, neither the
+    store nor the ledger changes. *)
+Lemma reach_other_id_cannot_lease U m sm id' op dur l :
+  Inv U (st m) (fs sm) → clock m = sclock sm →
+  f_leases (fs sm) !! op = Some l → sclock sm < l_expiry l → l_id l ≠ id' →
+  (step U m (Lease id' op dur)).1 = m ∧
+  spec_step U sm (Lease id' op dur) = sm ∧
+  ((step U m (Lease id' op dur)).2 = OLock ErrAlreadyLocked ∨
+   (step U m (Lease id' op dur)).2 = OLock ErrUnknownOutput) ∧
+  (known_output U (fs sm) op = true → (step U m (Lease id' op dur)).2 = OLock ErrAlreadyLocked).
+Proof.
+  intros HI Hclk Hl Hlt Hne.
+  pose proof (ledger_lease_is_locked U m sm op l HI Hclk Hl Hlt) as Hlk.
+  assert (id' ≠ l_id l) as Hne' by congruence.
+  destruct (lease_other_id_never_succeeds (st m) op (clock m) l id' dur Hlk Hne') as [Hst Hres].
+  unfold step. destruct (lock_output id' op dur (clock m) (st m)) as [r s'] eqn:Hlo. simpl in *. subst s'.
+  split; [apply mstate_eta|]. split.
+  - unfold spec_lease. destruct (negb (known_output U (fs sm) op)); [by destruct sm|].
+    rewrite Hl, (bool_decide_eq_true_2 _ Hlt), (bool_decide_eq_false_2 _ Hne). simpl. by destruct sm.
+  - split; [destruct Hres as [->| ->]; by auto|].
+    intros Hk. rewrite <-(is_known_output_spec U _ _ op HI) in Hk.
+    pose proof (lease_other_id_rejected (st m) op (clock m) l id' dur Hlk Hne' Hk) as Hrej.
+    rewrite Hlo in Hrej. by injection Hrej as ->.
+Qed.
+
+(** ... nor released under another identifier. *)
+Lemma reach_other_id_cannot_release U m sm id' op l :
+  Inv U (st m) (fs sm) → clock m = sclock sm →
+  f_leases (fs sm) !! op = Some l → sclock sm < l_expiry l → l_id l ≠ id' →
+  (step U m (Release id' op)).1 = m ∧
+  spec_step U sm (Release id' op) = sm ∧
+  (step U m (Release id' op)).2 ≠ OLock UnlockOk ∧
+  (known_output U (fs sm) op = true → (step U m (Release id' op)).2 = OLock ErrUnlockNotAllowed).
+Proof.
+  intros HI Hclk Hl Hlt Hne.
+  pose proof (ledger_lease_is_locked U m sm op l HI Hclk Hl Hlt) as Hlk.
+  assert (id' ≠ l_id l) as Hne' by congruence.
+  destruct (release_other_id_never_frees (st m) op (clock m) l id' Hlk Hne') as [Hst Hres].
+  unfold step. destruct (unlock_output id' op (clock m) (st m)) as [r s'] eqn:Hlo. simpl in *. subst s'.
+  split; [apply mstate_eta|]. split.
+  - unfold spec_release. destruct (negb (known_output U (fs sm) op)); [by destruct sm|].
+    rewrite Hl, (bool_decide_eq_true_2 _ Hlt), (bool_decide_eq_false_2 _ Hne). simpl. by destruct sm.
+  - split; [congruence|].
+    intros Hk. rewrite <-(is_known_output_spec U _ _ op HI) in Hk.
+    pose proof (release_other_id_rejected (st m) op (clock m) l id' Hlk Hne' Hk) as Hrej.
+    rewrite Hlo in Hrej. by injection Hrej as ->.
+Qed.
+
+(** The output becomes leasable by anyone exactly at the expiry instant: a
+    request under another identifier for a known output is granted if and only
+    if the ledger's expiry has been reached. *)
+Lemma reach_leasable_by_anyone_iff_expired U m sm id' op dur l :
+  Inv U (st m) (fs sm) → clock m = sclock sm →
+  f_leases (fs sm) !! op = Some l → l_id l ≠ id' → known_output U (fs sm) op = true →
+  ((step U m (Lease id' op dur)).2 = OLock (LockOk (clock m + dur)) ↔ l_expiry l <= sclock sm).
+Proof.
+  intros HI Hclk Hl Hne Hk. split.
+  - intros Hok. destruct (decide (sclock sm < l_expiry l)) as [Hlt|]; [|lia].
+    destruct (reach_other_id_cannot_lease U m sm id' op dur l HI Hclk Hl Hlt Hne) as (_ & _ & _ & Hrej).
+    rewrite (Hrej Hk) in Hok. done.
+  - intros Hexp. rewrite <-(is_known_output_spec U _ _ op HI) in Hk.
+    assert (is_locked (st m) op (clock m) = None) as Hfree.
+    { apply (proj2 (LeaseLemmas.is_locked_None (st m) op (clock m))). right. exists l. rewrite (inv_locked U _ _ HI), Hclk. done. }
+    unfold step. rewrite (lease_free_output_granted (st m) op (clock m) id' dur Hfree Hk). done.
+Qed.
+
+(** ... and is offered by [UnspentOutputs] again exactly from that instant on
+    (if it would be offered when leases are ignored). *)
+Lemma reach_available_iff_expired U m sm op l u :
+  Inv U (st m) (fs sm) → clock m = sclock sm →
+  f_leases (fs sm) !! op = Some l → u_op u = op →
+  (u ∈ unspent_outputs U (st m) (clock m) ↔
+   l_expiry l <= sclock sm ∧ u ∈ fetch_credits U (st m) (clock m) true false).
+Proof.
+  intros HI Hclk Hl Hop. rewrite <-Hclk.
+  apply (lease_available_iff_expired U (st m) op l (clock m) u); [|done]. by rewrite (inv_locked U _ _ HI).
+Qed.
+
+(** Restart: the harness renders a close-and-reopen as the event [Tick 0],
+    whose model and ledger steps are the identity - a store without in-memory
+    state must report after the restart exactly what it reported before. *)
+Lemma restart_step_is_identity U m sm :
+  step U m (Tick 0) = (m, ONone) ∧ spec_step U sm (Tick 0) = sm.
+Proof.
+  split; simpl.
+  - rewrite Z.add_0_r. by rewrite mstate_eta.
+  - rewrite Z.add_0_r. by destruct sm.
+Qed.
